@@ -85,18 +85,29 @@ Definition serve_verdict (u : run) : nat * string :=
     end
   else (0, "").
 
+Definition hidden_verdict (u : run) : nat * string :=
+  match first_fail bool (hidden_step (u_entry u)) false (u_trace u) 0 with
+  | inr pos => (1, match nth_error (u_trace u) pos with
+                   | Some (EBatchDeliver _ _, _) => "payload handed to the transport carries bto/bcc"
+                   | Some (EWrite _, _) => "served body carries bto/bcc"
+                   | _ => "?" end)
+  | inl _ => (0, "")
+  end.
+
 Definition judged := Eval vm_compute in
-  map (fun p => match p with (i, u) => (i, verdict_code (check_run u), lock_verdict u, gate_verdict u, (outcome_verdict u, serve_verdict u)) end)
+  map (fun p => match p with (i, u) => (i, verdict_code (check_run u), lock_verdict u, gate_verdict u, (outcome_verdict u, serve_verdict u, hidden_verdict u)) end)
       (combine (seq 0 (length observed)) observed).
 Definition replay_bad := Eval vm_compute in map (fun x => match x with (i, v, _, _, _) => (i, v) end) (filter (fun x => match x with (_, (k, _, _), _, _, _) => negb (Nat.eqb k 0) end) judged).
 Definition lock_bad := Eval vm_compute in map (fun x => match x with (i, _, l, _, _) => (i, l) end) (filter (fun x => match x with (_, _, (k, _, _, _), _, _) => negb (Nat.eqb k 0) end) judged).
 Definition gate_bad := Eval vm_compute in map (fun x => match x with (i, _, _, g, _) => (i, g) end) (filter (fun x => match x with (_, _, _, (k, _), _) => negb (Nat.eqb k 0) end) judged).
-Definition outcome_bad := Eval vm_compute in map (fun x => match x with (i, _, _, _, (o, _)) => (i, o) end) (filter (fun x => match x with (_, _, _, _, ((k, _), _)) => negb (Nat.eqb k 0) end) judged).
-Definition serve_bad := Eval vm_compute in map (fun x => match x with (i, _, _, _, (_, o)) => (i, o) end) (filter (fun x => match x with (_, _, _, _, (_, (k, _))) => negb (Nat.eqb k 0) end) judged).
+Definition outcome_bad := Eval vm_compute in map (fun x => match x with (i, _, _, _, (o, _, _)) => (i, o) end) (filter (fun x => match x with (_, _, _, _, ((k, _), _, _)) => negb (Nat.eqb k 0) end) judged).
+Definition serve_bad := Eval vm_compute in map (fun x => match x with (i, _, _, _, (_, o, _)) => (i, o) end) (filter (fun x => match x with (_, _, _, _, (_, (k, _), _)) => negb (Nat.eqb k 0) end) judged).
+Definition hidden_bad := Eval vm_compute in map (fun x => match x with (i, _, _, _, (_, _, o)) => (i, o) end) (filter (fun x => match x with (_, _, _, _, (_, _, (k, _))) => negb (Nat.eqb k 0) end) judged).
 Definition n_observed := Eval vm_compute in length observed.
 Print replay_bad.
 Print lock_bad.
 Print gate_bad.
 Print outcome_bad.
 Print serve_bad.
+Print hidden_bad.
 Print n_observed.
